@@ -35,7 +35,9 @@ pub fn naive_run(prog: &str, lim: u64) -> String {
     let mut m = Naive::new();
     let mut erase: Option<u64> = None;
     let mut blank: Option<u64> = None;
-    let mut nonzero: i64 = 0;
+    // number of non-blank cells strictly left / right of the head (kept incrementally)
+    let mut nz_left: u64 = 0;
+    let mut nz_right: u64 = 0;
     let mut term = String::from("limit");
     let mut n: u64 = 0;
     while n < lim {
@@ -44,33 +46,42 @@ pub fn naive_run(prog: &str, lim: u64) -> String {
             term = format!("halt:{},{}", m.state, scan);
             break;
         };
-        if next == m.state && scan == 0 && m.blank_side(sh) {
+        if next == m.state && scan == 0 && (if sh { nz_right == 0 } else { nz_left == 0 }) {
             term = String::from("spinout");
             break;
         }
-        if scan != 0 {
-            nonzero -= 1;
-        }
-        if pr != 0 {
-            nonzero += 1;
-        }
         m.tape[m.pos] = pr;
         if sh {
+            if pr != 0 {
+                nz_left += 1;
+            }
             m.pos += 1;
             if m.pos == m.tape.len() {
                 m.tape.push_back(0);
             }
-        } else if m.pos == 0 {
-            m.tape.push_front(0);
+            if m.tape[m.pos] != 0 {
+                nz_right -= 1;
+            }
         } else {
-            m.pos -= 1;
+            if pr != 0 {
+                nz_right += 1;
+            }
+            if m.pos == 0 {
+                m.tape.push_front(0);
+            } else {
+                m.pos -= 1;
+            }
+            if m.tape[m.pos] != 0 {
+                nz_left -= 1;
+            }
         }
         m.state = next;
         n += 1;
-        if erase.is_none() && scan != 0 && pr == 0 && nonzero == 0 {
+        let all_blank = nz_left == 0 && nz_right == 0 && m.tape[m.pos] == 0;
+        if erase.is_none() && scan != 0 && pr == 0 && all_blank {
             erase = Some(n);
         }
-        if blank.is_none() && nonzero == 0 {
+        if blank.is_none() && all_blank {
             blank = Some(n);
         }
     }
